@@ -31,6 +31,8 @@ PROPERTY_META = {
                 'bn_rec_win, md_hmac/kdf/xmd, cp_ecies_dec); ALLOC=DYNAMIC allocation-failure points; pointer arithmetic that leaves the object without a dereference is not flagged'),
     'C09': dict(not_covered='every modular / number-theoretic function and every recoding except bn_rec_win (bn_rec_slw/naf/tnaf/reg/jsf/glv/sac/frb): '
                 'their correctness rests on division/multiplication or was not reached'),
+    'C14': dict(not_covered='the compression functions (SHA-2 rounds), SHA256FinalBits/Finalize/ResultN glue, BLAKE2s, md_hmac, md_kdf/md_mgf, md_xmd, AES-CBC/PKCS#7: '
+                'digest and cipher values can only be compared with a second transcription of the standard, which is not a contract on one program; the wrappers were not reached'),
     'C15': dict(not_covered='SHA-256 itself and hash_df values (the hash is abstract: uninterpreted for the generate path, frame-only for (re)seeding); '
                 'the output block framing of rand_gen; termination of bn_rand_mod; agreement with the CAVS vectors is the test-suite\'s job',
                 assumptions=['reseed counter < 2^31 - 600 (the int counter does not overflow)', 'bn_mod_basic: ASSUMED contract |result| < |modulus| (division not verified)']),
@@ -66,4 +68,6 @@ def all_units():
         units_err.register(add)
         import units_fp
         units_fp.register(add)
+        import units_sha
+        units_sha.register(add)
     return list(_units)
